@@ -22,7 +22,7 @@ case "$1" in
     cp /verif/known_findings.json $M/out/
     (cd $M/harness && CARGO_NET_OFFLINE=true cargo build --release --offline 2>&1 | grep -E "^error" -A8 | head -30)
     for c in "$@"; do
-      QV_ROOT=$M/out $M/harness/target/release/qv $c --no-evidence 2>&1 | grep -E "VIOLATION|HANG|sig=|tier=|KNOWN" | cut -c1-300
+      QV_ROOT=$M/out $M/harness/target/release/qv $c --no-evidence 2>&1 | grep -E "VIOLATION|HANG|sig=|tier=|KNOWN|inconclusive:" | cut -c1-300
     done
     ;;
   sed)
@@ -38,7 +38,7 @@ case "$1" in
     cp /verif/known_findings.json $M/out/
     (cd $M/harness && CARGO_NET_OFFLINE=true cargo build --release --offline 2>&1 | grep -E "^error" -A8 | head -30)
     for c in "$@"; do
-      QV_ROOT=$M/out $M/harness/target/release/qv $c --no-evidence 2>&1 | grep -E "VIOLATION|HANG|sig=|tier=" | cut -c1-300
+      QV_ROOT=$M/out $M/harness/target/release/qv $c --no-evidence 2>&1 | grep -E "VIOLATION|HANG|sig=|tier=|inconclusive:" | cut -c1-300
     done
     ;;
   clean)
